@@ -1,4 +1,5 @@
 import Rp2.Proofs.PropsB
+import Rp2.Proofs.ParseFields
 import Rp2.Proofs.ParseIds
 /-! # C11 — parsed transactions equal the spreadsheet rows for any column layout -/
 namespace Rp2.C11
@@ -26,4 +27,43 @@ theorem no_row_skipped (cfg : Config) (asset : String) (acct : String → String
     (h0 : tableOf (row.getD 0 .empty) = none) (h1 : isEnd (row.getD 0 .empty) = false) (h2 : isEmptyCell (row.getD 0 .empty) = false)
     (m : String) (hbad : tryRow cfg asset acct t (i + 1) row st = .error m) :
     parseRows cfg asset acct i st (row :: rest) = .error (.row (i + 1) m) := parseRows_bad_row cfg asset acct i st row rest t hcur hcount h0 h1 h2 m hbad
+/-- **the fields of an accepted IN row are its cells**, through whatever header map: spot price and amount are the `spot_price` and `crypto_in`
+    cells read at 11 decimals; the optional fiat fields are their cells when filled and otherwise the documented defaults
+    (`fiat_fee` = crypto fee × price when only the crypto fee is given, `fiat_in_no_fee` = amount × price,
+    `fiat_in_with_fee` = `fiat_in_no_fee + fiat_fee`) -/
+theorem in_row_fields_are_cells (cfg : Config) (asset : String) (acct : String → String → Nat) (r : Nat) (row : List Cell) (p : ParsedIn)
+    (h : mkInRow cfg asset acct r row = .ok p) :
+    ∃ cfee fnf fwf ffee,
+      numArg cfg.inCols row "crypto_fee" = .ok cfee ∧ numArg cfg.inCols row "fiat_in_no_fee" = .ok fnf ∧
+      numArg cfg.inCols row "fiat_in_with_fee" = .ok fwf ∧ numArg cfg.inCols row "fiat_fee" = .ok ffee ∧
+      (∃ q, field cfg.inCols row "spot_price" = some (.num q) ∧ p.tx.price = toUnits q) ∧
+      (∃ q, field cfg.inCols row "crypto_in" = some (.num q) ∧ p.tx.amount = toUnits q) ∧
+      p.cryptoFee = (optNum cfee).getD 0 ∧
+      p.tx.fiatFee = (if (optNum cfee).isSome && (optNum ffee).isNone then dmul (ofUnits ((optNum cfee).getD 0)) (ofUnits p.tx.price)
+                      else ofUnits ((optNum ffee).getD 0)) ∧
+      p.tx.fiatNoFee = (match optNum fnf with | some v => ofUnits v | none => dmul (ofUnits p.tx.amount) (ofUnits p.tx.price)) ∧
+      p.tx.fiatWithFee = (match optNum fwf with | some v => ofUnits v | none => dadd p.tx.fiatNoFee p.tx.fiatFee) :=
+  mkInRow_fields cfg asset acct r row p h
+/-- an optional numeric field takes its default exactly when its column is not mapped or its cell is empty; a filled cell is read as a
+    number at 11 decimals -/
+theorem optional_cell_read (cols : List (String × Nat)) (row : List Cell) (name : String) (o : Option (Option Int)) (h : numArg cols row name = .ok o) :
+    (optNum o = none → field cols row name = none ∨ field cols row name = some .empty) ∧
+    (∀ u, o = some (some u) → ∃ q, field cols row name = some (.num q) ∧ u = toUnits q) :=
+  ⟨numArg_absent h, fun u hu => numArg_num (hu ▸ h)⟩
+theorem out_row_fields_are_cells (cfg : Config) (asset : String) (acct : String → String → Nat) (r : Nat) (row : List Cell) (t : OutTx)
+    (h : mkOutRow cfg asset acct r row = .ok t) :
+    ∃ price onf fee owf fnf ffee ts ex ho typ,
+      (∃ q, field cfg.outCols row "spot_price" = some (.num q) ∧ price = toUnits q) ∧
+      (∃ q, field cfg.outCols row "crypto_out_no_fee" = some (.num q) ∧ onf = toUnits q) ∧
+      (∃ q, field cfg.outCols row "crypto_fee" = some (.num q) ∧ fee = toUnits q) ∧
+      numArg cfg.outCols row "crypto_out_with_fee" = .ok owf ∧ numArg cfg.outCols row "fiat_out_no_fee" = .ok fnf ∧
+      numArg cfg.outCols row "fiat_fee" = .ok ffee ∧
+      t = mkOut r ts (acct ex ho) typ price onf fee (optNum owf) (optNum fnf) (optNum ffee) := mkOutRow_fields cfg asset acct r row t h
+theorem intra_row_fields_are_cells (cfg : Config) (asset : String) (acct : String → String → Nat) (r : Nat) (row : List Cell) (t : IntraTx)
+    (h : mkIntraRow cfg asset acct r row = .ok t) :
+    ∃ price sent recv ts fe fh te th,
+      numArg cfg.intraCols row "spot_price" = .ok price ∧
+      (∃ q, field cfg.intraCols row "crypto_sent" = some (.num q) ∧ sent = toUnits q) ∧
+      (∃ q, field cfg.intraCols row "crypto_received" = some (.num q) ∧ recv = toUnits q) ∧
+      t = mkIntra r ts (acct fe fh) (acct te th) ((optNum price).getD 0) sent recv := mkIntraRow_fields cfg asset acct r row t h
 end Rp2.C11
